@@ -25,7 +25,7 @@ CHECKS = {
    text="Only the wiring clauses: PINGREQ forwarded when active/awake, a pinger armed on every path whenever duration > keep-alive, stopped by its own stop function after exactly the announced duration, pinging every keep-alive seconds. The 1.5x keep-alive window itself is a bound over timed histories that no static argument in reach decides; sleep cycles not covered by a pinger are a known finding. The timer that stops the sleep pinger is never disarmed.",
    note="Trusted: go/ssa. Grid of valuations is finite (keep-alive 10; durations 1..1000) but the guards are comparisons of the two cells only.", ref="4/C12"),
  "C14": dict(tech=TECH+"session automaton extraction (path exploration of both dispatchers), type-flow sets for every argument of the MQTT sender, who-may-write rule for connections",
-   text="Decides the property at the structural level for all histories and termination causes: a *DisconnectPacket can reach the MQTT sender only on the path handling a client DISCONNECT with Duration 0, every other send site can only carry other packet types, and nothing else writes to a connection.",
+   text="Decides the property at the structural level for all histories and termination causes: a *DisconnectPacket can reach the MQTT sender only on the path handling a client DISCONNECT with Duration 0, every other send site can only carry other packet types, and nothing else writes to a connection. The MQTT DISCONNECT send is dominated by Duration == 0 of the client's DISCONNECT for every duration value.",
    note="Trusted: go/ssa, paho's encoder and NewControlPacket (constant code -> type table frozen in the checker). Type-flow is field-based and fails closed on unknown flows.", ref="4/C14"),
  "C20": dict(level="proof", tech="panic-site enumeration over go/ssa of the closure of ReadPacket + the Go compiler's prove pass as oracle (-d=ssa/check_bce) + three replayed arguments (io.Reader contract, header-form invariant, guarded length-prefixed slice) + result-or-error discipline by path exploration",
    text="Every instruction that can panic while decoding a datagram is an obligation and each is discharged by a named argument; obligations == discharged is required, so a green result is a proof (relative to the trusted base) that no byte string makes ReadPacket panic. The argument does not depend on the 8192 bound.",
@@ -34,7 +34,7 @@ CHECKS = {
    text="Encoder/decoder table agreement (fields, order, offsets, widths, flag masks/shifts, length formula, type tags, header form threshold, short-topic byte order). Necessary for round-trip equality and sufficient for all fields handled value-independently; equality for every concrete value is not decided. Also: decoders cannot panic (C20's bounds obligations re-run) and the smallest legal packets (one-octet variable fields) are accepted at the same offsets.",
    note="Trusted: go/ssa; variable-length fields are given length 3 while exploring (layout does not depend on it).", ref="4/C21"),
  "C22": dict(tech=TECH+"decoder layout extraction (as C21) compared with a specification table frozen in the checker; exploration of Header.Unpack/HeaderLength for both header forms; shape rule for ReadPacket's body slice",
-   text="Position faithfulness of every decoded field for every accepted datagram, and the body offset equal to the parsed header size for both header forms whatever the length value.",
+   text="Position faithfulness of every decoded field for every accepted datagram, and the body offset equal to the parsed header size for both header forms whatever the length value. Every read of a datagram uses a buffer allocated for that read (decoded packets keep slices of it).",
    note="Trusted: go/ssa and the transcription of MQTT-SN 1.2 section 5 / doc/auth.md into the checker's table.", ref="4/C22"),
  "C18": dict(tech=TECH+"dominance (gate) rule on the completion sites, lockset analysis (must-hold locks per instruction + locks held at all call sites) for the timer callback versus Success/Fail and for every timer/state field, path rule 'nothing after completion', publish-before-use rule for AfterFunc timers",
    text="At-most-once completion, callback-before-Done, no retry after completion on the same path and atomically with respect to Success/Fail, and the race / nil clauses are decided for all schedules because locksets and dominance do not depend on the schedule. The sleep transaction's unsynchronised fields and the exported State/Data fields are known findings. The completion callback is called nowhere but at a completion site.",
@@ -67,7 +67,7 @@ CHECKS = {
    text="No-leak / join / close structure for every termination cause; the numeric bound and OS-level blocking inside net.Conn are not decided. The client-connection context is cancelled on every path of the shutdown goroutine; receive loops return non-nil after a failed read.",
    note="Trusted: go/ssa, errgroup, context semantics.", ref="4/C13"),
  "C16": dict(tech=TECH+"identity/DUP rule on every gateway retry callback (path rule + type-flow of the stored step data), step-table extraction by exploring each handler per transaction state, origin tracing of the forwarded message IDs, shared rules for the REGISTER step and for the client's PUBREL/QoS 2 receive side",
-   text="Each retransmission is the stored packet with DUP set, the per-step tables (required state, packet, side, next state) are the protocol's, wrong-state packets are inert, the budget stop is final and both endpoints have the handlers loss recovery depends on. End-to-end delivery for a given loss pattern and handler-exactly-once are history properties and are not decided.",
+   text="Each retransmission is the stored packet with DUP set, the per-step tables (required state, packet, side, next state) are the protocol's, wrong-state packets are inert, the budget stop is final and both endpoints have the handlers loss recovery depends on. End-to-end delivery for a given loss pattern and handler-exactly-once are history properties and are not decided. The client's PUBACK/PUBREC carry the PUBLISH's message ID and the PUBREL step that delivers also completes the exchange.",
    note="Trusted: go/ssa. State constants are discovered from the code (the states the broker-PUBLISH case enters), not assumed.", ref="4/C16"),
  "C17": dict(tech=TECH+"exploration of the client dispatcher per (trigger, stored transaction type, transaction state); identity/DUP rule on every client retry callback; origin tracing of the PUBCOMP message ID; error-propagation rule; store-before-send event-order rule",
    text="Success only on the acknowledgement in the right state, DUP and unchanged packet on retransmission, PUBREL always answered whatever is stored under its ID, step errors not dropped, transaction registered before the PUBLISH leaves. 'Within the retry budget' is timing and not decided. The receive loop never runs application callbacks synchronously, and the client never forgets a topic ID (so the PUBREL handler's lookup cannot start failing).",
@@ -100,13 +100,13 @@ CHECKS = {
    text="Every instruction that can panic on a packet-handling path is enumerated and needs a named argument, so a green result covers all packet sequences for the enumerated panic sources (failed assertion, index/slice out of range, explicit panic, nil pointer left by a concurrent reset, concurrent map write). Panics inside dependencies and resource exhaustion are not decided. The sleep transaction's DISCONNECT pointer reset is a known finding. The packet pointer the client's PUBREL handler dereferences is stored on every path of the handler that creates the transaction.",
    note="Trusted: go/ssa, the installed compiler's bounds-check elimination.", ref="4/C25"),
  "C32": dict(tech=TECH+"sibling comparison of all topic resolver sites of client library, gateway and CLI tools (callee + argument origins per topic-ID type), origin tracing of the client identity on both ends, C05's lookup-consistency rules and C21's short-topic codec rule re-run",
-   text="Both endpoints compute the ID<->name mapping with the same functions on the same key for every topic-ID type and every configuration; that both ends were given the same configuration is the operator's responsibility and is not decided.",
+   text="Both endpoints compute the ID<->name mapping with the same functions on the same key for every topic-ID type and every configuration; that both ends were given the same configuration is the operator's responsibility and is not decided. The client delivers received PUBLISHes under a name that comes straight from its registry / GetTopicName / DecodeShortTopic.",
    note="Trusted: go/ssa.", ref="4/C32"),
  "C34": dict(tech=TECH+"who-may-send rule over the reverse call graph: every call site of the MQTT sender is classified by the goroutine roots and callbacks that can execute it (receive loops, retry callbacks, sleep pinger; anything else is a violation); C12's timer/pinger rules, C09's keep-alive rules, C13's receive-loop rules and C10's reaping rules re-run",
    text="Only the structural necessary conditions of the bound: the gateway never sends to the broker on its own (every send is caused by a client packet, a broker packet, a budget-bounded retransmission or the duration-bounded sleep pinger), so a silent client means a silent broker connection that the assumed broker drops; the pinger is bounded by the announced duration; the broker is told the client's keep-alive and zero is refused; a broker close ends the session; the connect exchange always has its timer. The numeric bounds of the statement (connect timeout, 1.5x keep-alive, sleep duration + 1.5x keep-alive) are properties of timed histories under an assumption about the broker: no static argument in reach decides them and they are NOT claimed.",
    note="Trusted: go/ssa; static calls, closures and bound-method values inside package gateway (a function value that escapes in another way is reported, not ignored). The broker's behaviour is the property's own assumption.", ref="4/C34"),
  "C26": dict(tech=TECH+"agreement rules between the two implementations: mutual dispatcher coverage by type-flow, both sides' exchange tables re-checked against the protocol table (rules of C03, C16, C17, C27 re-run), exploration of the client's sleep step per client state against the gateway's sleep automaton, symbolic exploration of the client's REGISTER case against the gateway's allocation site",
-   text="Agreement conditions between client library and gateway, each necessary for interoperation: mutual handler coverage, the same (request, reply, state) tables on both sides, the same meaning of the sleep cycle (gateway asleep again after the wake-up PINGRESP; client's Sleep() from awake is silent, from active announces the duration), the same meaning of topic registration. The end-to-end statement - every API call succeeds and every matching message reaches its handler for every call sequence - is a history property of two cooperating state machines and is NOT decided. Known finding: one name can have two registrations pending at the gateway while the client refuses a second ID for a known name.",
+   text="Agreement conditions between client library and gateway, each necessary for interoperation: mutual handler coverage, the same (request, reply, state) tables on both sides, the same meaning of the sleep cycle (gateway asleep again after the wake-up PINGRESP; client's Sleep() from awake is silent, from active announces the duration), the same meaning of topic registration. The end-to-end statement - every API call succeeds and every matching message reaches its handler for every call sequence - is a history property of two cooperating state machines and is NOT decided. Known finding: one name can have two registrations pending at the gateway while the client refuses a second ID for a known name. Topic IDs are never forgotten or rebound on either side; message IDs stay in 1..0xFFFF.",
    note="Trusted: go/ssa. Both sides are checked against the protocol's tables frozen in the checker, so agreement is decided at the level of packet types, reply routing and states, not of timing.", ref="4/C26"),
 }
 
